@@ -26,7 +26,7 @@ Statements only (helper lemmas: `Lemmas/Simulation.lean` — the frame —, `Lem
   These are idealisations — exactness in EVERY evaluation context, satisfied by the identity; the real walkers
   are exact where the expression is defined (theorems C11_sound_fuel / C12.dnf_equiv, not composed here).
 
-No theorem here for QuantifiersRemover, BoundedTypesRemover (models only, tied by correspondence),
+QuantifiersRemover and BoundedTypesRemover: see `Props/C06BTQR.lean` / `Props/C07BTQR.lean`.  No theorem for
 NegativeConditionsRemover, Grounder, UsertypeFluentsRemover, TrajectoryConstraintsRemover,
 UndefinedInitialNumericRemover (end-to-end differential only).
 -/
